@@ -18,6 +18,10 @@ def discr(tr, e, tag):
 def run(ctx):
     r = tlc.run("FakeTrxMC.tla", ctx.pick("MC_FakeTrxFlowQ.cfg", "MC_FakeTrxFlow.cfg"), workers=8, timeout=3000)
     ctx.require_ok("MC FakeTrxMC flow mode (arrivals, ticks across the wrap, POWEROFF/POWERON, SETFORMAT, FAKE_DROP, RFMUTE)", r)
+    # beyond the exhaustive depth: random deep behaviours (<= 40 steps) with every invariant checked in every state
+    r = tlc.run("FakeTrxMC.tla", "SIMINV_FakeTrx.cfg", workers=4, simulate="num=%d" % ctx.pick(60, 3000), depth=40,
+                seed=ctx.seed % 100003, timeout=3000)
+    ctx.require_ok("SIM FakeTrxMC flow mode, depth 40, invariants in every state", r)
     traces = [FC.traffic_session(ctx, "s%d" % k, ID) for k in range(ctx.pick(110, 5000))]
     nd = FC.traffic_stats(ctx, traces)
     FC.validate(ctx, traces, (ID + ".",) + ("C13.invalid-message-sent",), "TV FakeTrxTrace (%s traffic sessions on the real Application)" % ID, discr)
